@@ -4,6 +4,7 @@ import (
 	"bytes"
 	"encoding/json"
 	"fmt"
+	"github.com/llir/llvm/ir/metadata"
 	"os"
 	"os/exec"
 	"strings"
@@ -149,6 +150,17 @@ type plan struct {
 	// Stale: address spaces were assigned after construction without refreshing the cached types
 	// (emit.ModuleWith(m, true)): the caches of such globals, functions and allocas still say addrspace 0.
 	Stale bool `json:",omitempty"`
+	// MDRotate: the metadata definitions are listed in another order than that of their IDs (rotated by
+	// MDRotate positions; 0 = as built): the API lets a client list them in any order.
+	MDRotate int `json:",omitempty"`
+}
+
+// rotateMDs lists the metadata definitions of m in an order that is not the order of their IDs.
+func rotateMDs(m *ir.Module, k int) {
+	if n := len(m.MetadataDefs); n > 1 && k%n != 0 {
+		k %= n
+		m.MetadataDefs = append(append([]metadata.Definition{}, m.MetadataDefs[k:]...), m.MetadataDefs[:k]...)
+	}
 }
 
 // unprint takes a parsed module back to the state of one built through the API and never printed.
@@ -452,6 +464,7 @@ func TestReplay(t *testing.T) {
 							return nil
 						}
 						unprint(m, pl.Unnumber, pl.Stale)
+						rotateMDs(m, pl.MDRotate)
 						return m
 					})
 					continue
@@ -475,7 +488,7 @@ func TestReplay(t *testing.T) {
 // IDs yet, a drawn subset of the metadata definitions is unnumbered) printed by several goroutines.
 func TestConstructedModules(t *testing.T) {
 	const test = "ConstructedModules"
-	hx.Rule(test, "modules built through the public API from generated programs (IDs of unnamed globals, locals and of a drawn subset of metadata definitions not yet assigned) x start state x 2..8 goroutines. From the never-printed state the plan uses whole-module calls (String, WriteTo); sub-entity calls (Func/Block/instruction LLString, Ident) run concurrently with a first whole-module print only while known finding KF-C13-first-print-vs-subentity does not reproduce. Same oracles as ConcurrentPrinters")
+	hx.Rule(test, "modules built through the public API from generated programs (IDs of unnamed globals, locals and of a drawn subset of metadata definitions not yet assigned; in every second case the metadata definitions are listed in an order that is not the order of their IDs) x start state x 2..8 goroutines. From the never-printed state the plan uses whole-module calls (String, WriteTo); sub-entity calls (Func/Block/instruction LLString, Ident) run concurrently with a first whole-module print only while known finding KF-C13-first-print-vs-subentity does not reproduce. Same oracles as ConcurrentPrinters")
 	hx.Check(t, test, hx.N(100, 2500), func(rt *rapid.T) {
 		cfg := gen.DefaultCfg()
 		cfg.UnnamedBias = 7
@@ -493,6 +506,11 @@ func TestConstructedModules(t *testing.T) {
 				unl = append(unl, i)
 			}
 		}
+		// every second case lists the metadata definitions in an order that is not the order of their IDs
+		mdRotate := 0
+		if len(am_.MDs) > 1 && rapid.Bool().Draw(rt, "mdrotate") {
+			mdRotate = rapid.IntRange(1, len(am_.MDs)-1).Draw(rt, "mdrotateby")
+		}
 		mk := func() *ir.Module {
 			var m *ir.Module
 			if p := lx.Guard(func() { m, _ = emit.ModuleWith(am_, stale) }); p != nil {
@@ -503,10 +521,11 @@ func TestConstructedModules(t *testing.T) {
 					d.SetID(-1)
 				}
 			}
+			rotateMDs(m, mdRotate)
 			return m
 		}
 		pl := genPlan(rt)
-		pl.Constructed, pl.Unnumber, pl.Stale = true, unl, stale
+		pl.Constructed, pl.Unnumber, pl.Stale, pl.MDRotate = true, unl, stale, mdRotate
 		// the never-printed state is what a constructed module adds: start there three times out of four
 		if pl.Printed && rapid.IntRange(0, 1).Draw(rt, "unprinted") == 0 {
 			pl.Printed = false
